@@ -79,6 +79,10 @@ def norm(v):
     return "fd"
   if v == 42:
     return "ret"
+  if isinstance(v, bytes):
+    return "data" if v else "eof"
+  if isinstance(v, int):
+    return "sent"
   return "val:" + repr(v)[:30]
 
 
@@ -112,6 +116,9 @@ class Adapter(object):
     self.timer = None
     self.stids = {}
     self.pending_st = None
+    self.wpairs = []
+    self.wsocks = {}
+    self._cur_tid = 0
 
   # ---- environment
   def _vselect(self, r, w, x, timeout):
@@ -127,7 +134,33 @@ class Adapter(object):
       self.socks[f] = socket.socketpair()
     return self.socks[f]
 
+  def _wsock(self, tid, script):
+    """a socket that is always writable for select() but whose send() follows a script"""
+    a, b = socket.socketpair()
+    self.wpairs.append((a, b))
+    ad = self
+
+    class WSock(object):
+      name = "w%d" % tid
+
+      def fileno(self_):
+        return a.fileno()
+
+      def send(self_, data, flags=0):
+        k = script.pop(0) if script else "F"
+        if k == "F":
+          return len(data)
+        if k == "P":
+          return 1 if len(data) > 1 else 0
+        raise socket.error(11, "Resource temporarily unavailable")
+    w = WSock()
+    self.wsocks[tid] = w
+    return w
+
   def close(self):
+    for a, b in self.wpairs:
+      a.close()
+      b.close()
     for a, b in self.socks.values():
       a.close()
       b.close()
@@ -166,6 +199,11 @@ class Adapter(object):
     if k == "SelFD":
       to = None if op["d"] == NOTO else op["d"]
       return recoco.Select([self._sock(op["fd"])[0]], None, None, to)
+    if k == "Recv":
+      to = None if op["d"] == NOTO else op["d"]
+      return recoco.Recv(self._sock(op["fd"])[0], timeout=to)
+    if k == "Send":
+      return recoco.Send(self._wsock(self._cur_tid, [c["op"] for c in op["sub"]]), b"0123456789")
     if k == "Block":
       return False
     if k == "Exit":
@@ -203,6 +241,7 @@ class Adapter(object):
           self.log.append([tid, i + 1, norm(got)])
           if op["op"] == "Raise":
             raise RuntimeError("task failure (scripted)")
+          self._cur_tid = tid
           y = recoco.Again(self._subgen(tid, op)) if op["op"] == "Call" else self._make(op)
           try:
             got = yield y
@@ -232,7 +271,9 @@ class Adapter(object):
     v = to - self.base
     return int(v) if float(v).is_integer() else v
 
-  def _fdname(self, rl):
+  def _fdname(self, rl, wl=None):
+    if wl:
+      return getattr(wl[0], "name", "w?")
     if rl:
       for f, (a, b) in self.socks.items():
         if rl[0] is a:
@@ -247,9 +288,9 @@ class Adapter(object):
     return {
         "ran": ran,
         "ready": [self._tid(t) for t in self.sched._ready],
-        "reg": sorted([self._tid(v[0]), self._until(v[4]), self._fdname(v[1])]
+        "reg": sorted([self._tid(v[0]), self._until(v[4]), self._fdname(v[1], v[2])]
                       for v in hub._tasks.values()),
-        "inc": [[self._tid(v[0]), self._until(v[4]), self._fdname(v[1])]
+        "inc": [[self._tid(v[0]), self._until(v[4]), self._fdname(v[1], v[2])]
                 for v in list(hub._incoming.queue)],
         "now": int(now) if float(now).is_integer() else now,
         "pinged": pinged,
